@@ -75,10 +75,11 @@ structure State where
   deriving Repr, DecidableEq
 
 /-- `data.dtype.names` / `data[0].dtype.names` -/
-def State.elements (s : State) : List Name :=
-  match s.layers with
+def elementsOf : List Layer → List Name
   | [] => []
   | l :: _ => keys l.fields
+
+def State.elements (s : State) : List Name := elementsOf s.layers
 
 def shapeAt (ls : List (List Nat)) (i : Nat) : Nat := ((ls[i]?).getD []).headD 0
 
@@ -309,13 +310,15 @@ end Spec
 /-! ## abstraction -/
 
 /-- the data identities stored under `n`, layer by layer -/
-def dataOf (s : State) (n : Name) : List Nat := s.layers.map (fun l => (get? l.fields n).getD 0)
+def dataIn (ls : List Layer) (n : Name) : List Nat := ls.map (fun l => (get? l.fields n).getD 0)
 
-def calOf (s : State) (n : Name) : Nat := (get? s.cal n).getD 0
+def calIn (d : Dict) (n : Name) : Nat := (get? d n).getD 0
 
+/-- the dictionary a state stands for: every element (field name of the first layer) with the data
+stored under that name in every layer and the calibration stored under that name -/
 def abs (s : State) : Spec :=
   { srr := s.srr, shapes := s.layers.map (·.shape), cfg := s.cfg,
-    map := s.elements.map (fun n => (n, (dataOf s n, calOf s n))) }
+    map := s.elements.map (fun n => (n, (dataIn s.layers n, calIn s.cal n))) }
 
 /-- what the dictionary view of the laser holds under `n` -/
 def entry (s : State) (n : Name) : Option Entry := get? (abs s).map n
@@ -325,6 +328,38 @@ distinct, the calibration dict has distinct keys and they are exactly the field 
 def Inv (s : State) : Prop :=
   s.layers ≠ [] ∧ (∀ l ∈ s.layers, keys l.fields = s.elements) ∧ s.elements.Nodup ∧
   (keys s.cal).Nodup ∧ (∀ n, n ∈ keys s.cal ↔ n ∈ s.elements)
+
+/-- what the constructors are given as data: at least one layer, all layers with the same, distinct
+field names (a structured dtype cannot have a name twice) -/
+def LayersOK (ls : List Layer) : Prop :=
+  ls ≠ [] ∧ (∀ l ∈ ls, keys l.fields = elementsOf ls) ∧ (elementsOf ls).Nodup
+
+/-- the `calibration` argument: a Python dict (distinct keys) that names elements only -/
+def GivenOK (ls : List Layer) (given : Option Dict) : Prop :=
+  ∀ g, given = some g → (keys g).Nodup ∧ ∀ k ∈ keys g, k ∈ elementsOf ls
+
+/-- `Laser` holds one array, `SRRLaser` at least two layers -/
+def KindOK (s : State) : Prop :=
+  (s.srr = true → s.layers.length > 1) ∧ (s.srr = false → s.layers.length = 1)
+
+instance (s : State) : Decidable (KindOK s) := by unfold KindOK; infer_instance
+
+instance (ls : List Layer) : Decidable (LayersOK ls) := by unfold LayersOK; infer_instance
+
+instance (ls : List Layer) (given : Option Dict) : Decidable (GivenOK ls given) :=
+  match given with
+  | none => isTrue (fun _ h => by cases h)
+  | some g =>
+    decidable_of_iff ((keys g).Nodup ∧ ∀ k ∈ keys g, k ∈ elementsOf ls)
+      ⟨fun h g' hg => by cases hg; exact h, fun h => h g rfl⟩
+
+/-- operations that can change what is stored -/
+def Op.changes : Op → Bool
+  | .add .. => true
+  | .remove .. => true
+  | .rename .. => true
+  | .get .. => false
+  | .callerEdit => false
 
 instance (s : State) : Decidable (Inv s) := by
   unfold Inv
